@@ -105,8 +105,9 @@ abbrev CertOracle := Bytes → Bool
 
 /-! ### decoding -/
 
-/-- `Decoder.unwrap` for byte/text strings: note that additional info 28..31 yields the info
-value itself as the length (not 0 as in `decodeVal`). `none` = error, `some none` = null/undefined. -/
+/-- `Decoder.unwrap` for byte/text strings. When the head carries no argument bytes the code takes
+the info value itself; `decHead` refuses info 28..31, so that branch only ever sees info < 24 (where the
+info value is the argument). `none` = error, `some none` = null/undefined. -/
 def unwrapBytes (bs : Bytes) : Option (Option (Nat × Bytes)) :=
   match decHead bs with
   | Option.none => Option.none
